@@ -31,23 +31,39 @@ def skip_eol(t):
 
 # --------------------------------------------------------------------------- generator (tags with known rendering)
 
+# text that LOOKS like the start of a tag but has no tag name: never a tag, reproduced verbatim — and a real tag
+# behind it (before the next '>' / '-->') is still a tag
+NAMELESS = ['<dtml-1', '<dtml- 1', '<dtml-.', '</dtml-1', '</dtml- 2', '<!--#1', '<!--# 1', '<!--#-']
+
+
 def gen_lit(r):
+    if r.random() < 0.12:
+        return '\0' + r.choice(NAMELESS) + r.choice(['1', '.', '1 '])
     if r.random() < 0.35:
         # a line end (possibly after blanks) — what the skipping rule is about
         return r.choice(['\n', ' \n', '\t\n', '  \n', '\n\n', ' \n x', '\r\n', ' \r\n', '\n ', ' x\n', '\r', '\x0b\n', '\xa0\n'])
     return tmplgen.gen_lit(r)
 
 
+def nameless_only(t):
+    """every tag opener in t is one of the nameless fragments followed by a non-letter"""
+    import re
+    u = t
+    for frag in sorted(NAMELESS, key=len, reverse=True):
+        u = re.sub(re.escape(frag) + r'(?![A-Za-z/])', '', u)
+    return tmplgen.inert(u)
+
+
 def gen_body(r, depth, width=3):
     out = []
     for _ in range(r.randint(0, width)):
         t = gen_lit(r)
-        if t and tmplgen.inert(t):
-            out.append(('lit', t))
+        if t and (t.startswith('\0') or tmplgen.inert(t)):
+            out.append(('lit', t.lstrip('\0')))
         out.append(gen_node(r, depth))
     t = gen_lit(r)
-    if t and tmplgen.inert(t):
-        out.append(('lit', t))
+    if t and (t.startswith('\0') or tmplgen.inert(t)):
+        out.append(('lit', t.lstrip('\0')))
     # merge adjacent literals (the generator's notion of "one literal" must match the source)
     merged = []
     for n in out:
@@ -55,7 +71,7 @@ def gen_body(r, depth, width=3):
             merged[-1] = ('lit', merged[-1][1] + n[1])
         else:
             merged.append(n)
-    return [n for n in merged if n[0] != 'lit' or tmplgen.inert(n[1])]
+    return [n for n in merged if n[0] != 'lit' or tmplgen.inert(n[1]) or nameless_only(n[1])]
 
 
 def gen_node(r, depth):
@@ -77,7 +93,13 @@ def gen_node(r, depth):
         return ('unless', ('name', r.choice(['flag', 'n1'])), gen_body(r, depth - 1, 2))
     if k == 'in':
         els = gen_body(r, depth - 1, 1) if r.random() < 0.4 else None
-        return ('in', ('name', r.choice(['items', 'items', 'none'])), [], gen_body(r, depth - 1, 2), els)
+        seq = r.choice(['items', 'items', 'none'])
+        opts = []
+        if seq == 'items' and r.random() < 0.45:
+            opts = r.choice([[('size', '2'), ('start', '1')], [('size', '1'), ('start', '1'), ('next', None)],
+                             [('size', '3'), ('start', '1'), ('previous', None)], [('size', '1'), ('start', '2'), ('previous', None)],
+                             [('size', '1'), ('start', '2'), ('next', None)], [('size', '1'), ('start', '2')], [('reverse', None)]])
+        return ('in', ('name', seq), opts, gen_body(r, depth - 1, 2), els)
     if k == 'with':
         return ('with', ('name', 'obj'), [], gen_body(r, depth - 1, 2))
     if k == 'let':
@@ -177,7 +199,18 @@ def evaluate(nodes):
                 out.append(evaluate(n[2]))
         elif k == 'in':
             cnt = SEQLEN[n[1][1]]
-            if cnt:
+            o = dict(n[2])
+            if cnt and ('previous' in o or 'next' in o):
+                # the body is rendered once if there is a previous / next batch, otherwise the else body
+                start, size = int(o['start']), int(o['size'])
+                exists = (start > 1) if 'previous' in o else (start + size - 1 < cnt)
+                if exists:
+                    out.append(evaluate(n[3]))
+                elif n[4] is not None:
+                    out.append(evaluate(n[4]))
+            elif cnt:
+                if 'size' in o:
+                    cnt = max(0, min(cnt, int(o['start']) - 1 + int(o['size'])) - (int(o['start']) - 1))
                 out.append(evaluate(n[3]) * cnt)
             elif n[4] is not None:
                 out.append(evaluate(n[4]))
@@ -326,6 +359,10 @@ def run_checks(res, r, n_tmpl, n_plain, n_pairs, have_driver):
         if not junction_inert(sa, sb):
             res.count('pair_excluded_junction_tag')
             continue
+        if a and a[-1][0] == 'lit' and any(f in a[-1][1] for f in ('<dtml-', '</dtml-', '<!--#')):
+            # a ends in text holding an unterminated tag candidate: b may supply its terminator (a tag spanning the junction)
+            res.count('pair_excluded_open_candidate')
+            continue
         # the documented exception: the junction forms a line end (blanks + newline) directly after a block tag of a
         trail = None
         if last_is_block(a):
@@ -345,7 +382,8 @@ def run_checks(res, r, n_tmpl, n_plain, n_pairs, have_driver):
         corr_cases.append((kind, sa + sb))
     # historical: give-up candidates in a (fixed: C01-scanner-giveup)
     for sa, sb in (('<dtml- ', '&dtml-x;'), ('<!--#var y ', '<dtml-var x>'), ('<dtml-1>', '&dtml-x;'), ('</dtml- ', '&dtml-x;'),
-                   ('a<dtml-', 'b&dtml-x;')):
+                   ('a<dtml-', 'b&dtml-x;'), ('a <dtml-', '<dtml-var x> b'), ('<dtml- 1 ', '&dtml-x; >'), ('<!--#1 ', '<dtml-var x> -->'),
+                   ('</dtml- ', '<dtml-var x>'), ('<!--# 2', '&dtml-x; <!--#var y-->'), ('<dtml-.', '<dtml-if x>A</dtml-if>>')):
         ra, rb, rab = render('html', sa), render('html', sb), render('html', sa + sb)
         res.evaluations += 1
         res.nt(('giveup', sa))
